@@ -183,6 +183,7 @@ class DenseOutput(object):
             self.t_eval = None
             self.__t_eval_arr = None
             self.__t_eval_arr_stale = False
+            self.__t_decreasing = False
             self.y_interpolants = []
         else:
             if t_eval is None or y_interpolants is None:
@@ -193,6 +194,7 @@ class DenseOutput(object):
                 self.t_eval = [D.ar_numpy.asarray(t) for t in t_eval]
                 self.__t_eval_arr = D.ar_numpy.stack(self.t_eval)
                 self.__t_eval_arr_stale = False
+                self.__t_decreasing = False
                 self.y_interpolants = y_interpolants
 
     @property
@@ -205,13 +207,21 @@ class DenseOutput(object):
     def find_interval(self, t):
         if self.t_eval is None:
             raise ValueError("No interpolant has been added and time interval is not defined!")
-        return min(deutil.search_bisection(self.t_eval, t), len(self.y_interpolants) - 1)
+        idx = min(deutil.search_bisection(self.t_eval, t), len(self.y_interpolants) - 1)
+        if self.__t_decreasing and idx > 0 and t < self.t_eval[idx]:
+            # pieces of a run in decreasing time are keyed by their lower end
+            idx = idx - 1
+        return idx
 
     def find_interval_vec(self, t):
         if self.t_eval is None:
             raise ValueError("No interpolant has been added and time interval is not defined!")
         out = deutil.search_bisection_vec(self.t_eval_arr, t)
         out[out > len(self.y_interpolants) - 1] = len(self.y_interpolants) - 1
+        if self.__t_decreasing:
+            # pieces of a run in decreasing time are keyed by their lower end
+            step_back = (out > 0) & (t < D.ar_numpy.take(self.t_eval_arr, out, axis=0))
+            out[step_back] = out[step_back] - 1
         return out
 
     def __call__(self, t):
@@ -266,6 +276,7 @@ class DenseOutput(object):
                 if (t - self.t_eval[-1]) < 0:
                     self.t_eval.insert(0, D.ar_numpy.asarray(t))
                     self.y_interpolants.insert(0, y_interp)
+                    self.__t_decreasing = True
                 else:
                     self.t_eval.append(D.ar_numpy.asarray(t))
                     self.y_interpolants.append(y_interp)
